@@ -483,13 +483,18 @@ func (l *leader) setCommitIndex(index uint64) {
 		println(l, "log.Commit", index)
 	}
 	l.storage.commitLog(index)
-	if l.commitIndex < l.startIndex && index >= l.startIndex {
+	commitReady := l.commitIndex < l.startIndex && index >= l.startIndex
+	if commitReady {
 		l.logger.Info("ready for commit")
 		if tracer.commitReady != nil {
 			tracer.commitReady(l.Raft)
 		}
 	}
 	configCommitted := l.Raft.setCommitIndex(index)
+	if commitReady && !configCommitted && !l.configs.IsStable() {
+		// actions left pending by earlier leaders can proceed now
+		l.checkConfigActions(nil, l.configs.Latest)
+	}
 	if configCommitted {
 		if l.configs.IsStable() {
 			if trace {
